@@ -134,6 +134,9 @@ def make_container(kind, ops):
         return {f'b{i}': op for i, op in enumerate(ops)}
     if kind == 'nest':
         return {'u': ops[0], 'v': list(ops[1:])} if len(ops) > 1 else {'u': [ops[0]]}
+    if kind == 'single':
+        assert len(ops) == 1
+        return ops[0]
     raise ValueError(kind)
 
 
@@ -187,7 +190,11 @@ class Builder:
         return [S(*shape) for _, shape, _, _ in self.layout(e)]
 
     # ---- construction -----------------------------------------------------------------------
-    def build(self, e, params):
+    def build_part(self, e, params, sub, memo=None):
+        """Assign parameters following the layout of ``e`` but construct only its sub-expression ``sub``."""
+        return self.build(e, params, sub=sub)
+
+    def build(self, e, params, sub=None):
         """params: list of arrays in ``layout`` order."""
         lay = self.layout(e)
         assert len(lay) == len(params), (len(lay), len(params))
@@ -221,7 +228,7 @@ class Builder:
                     assign(c)
         assign(e)
         memo = {}
-        return self._build(e, table, memo)
+        return self._build(e if sub is None else sub, table, memo)
 
     def _build(self, e, table, memo):
         tag = e[0]
@@ -295,6 +302,21 @@ class Builder:
                 elif 'nz' in flags:
                     out.append((a, 'ne', Poly()))
         return out
+
+
+def container_get(kind, cont, i, n):
+    """The i-th entry of a container built by make_container(kind, n items)."""
+    if kind in ('list', 'tuple'):
+        return cont[i]
+    if kind == 'dict':
+        return cont[f'b{i}']
+    if kind == 'nest':
+        if n == 1:
+            return cont['u'][0]
+        return cont['u'] if i == 0 else cont['v'][i - 1]
+    if kind == 'single':
+        return cont
+    raise ValueError(kind)
 
 
 def leaf_names(e, acc=None):
